@@ -39,6 +39,8 @@ void *malloc(size_t);
 enum { BL_Lexical = 0, BL_Parse = 1, BL_Semantic = 2, BL_Runtime = 3, BL_Generic = 4 };
 #define BL_EXC(cat) ((cat) + 1)
 #define BL_EXC_STD 99
+/* dynamic type of a raw standard exception, recorded (in the units that need it) by the model that raises it */
+enum { BL_STD_ANY = 0, BL_STD_INVALID_ARGUMENT = 1, BL_STD_OUT_OF_RANGE = 2 };
 extern int bl_exc, bl_exc_line, bl_exc_col;
 static inline void bl_throw(int c, int l, int col) { bl_exc = BL_EXC(c); bl_exc_line = l; bl_exc_col = col; }
 static inline void bl_throw_std(void) { bl_exc = BL_EXC_STD; bl_exc_line = 0; bl_exc_col = 0; }
